@@ -8,10 +8,20 @@
 //	oracle (a): a filled path whose values meet the statement's side conditions
 //	            reaches the handler of the lone route and Params returns exactly
 //	            the values; spelling variants are judged three-valued
-//	            (must / must-not / unspecified) from the configuration sentence.
+//	            (must / must-not / unspecified) from the configuration sentence
+//	            (claimFor); must-not only when a permissive reference matcher
+//	            (refMatch/plausible) cannot describe the path at all.
 //	oracle (b): fiber.RoutePatternMatch(path, pattern, cfg) == "the lone-route app
 //	            ran the handler", for every path of the space including
 //	            one-symbol neighbours and type-invalid fillings.
+//
+// Tiers:
+//
+//	quick:    patterns of <=4 tokens (+ 5-token patterns made of bare delimiters and
+//	          parameters), 8 values; ~4*10^7 evaluations, ~140 core-seconds.
+//	thorough: patterns of <=5 tokens, 9 values; ~1.2*10^9 evaluations, ~4000 core-seconds.
+//
+// Signatures: sig.go. Debug knob: C03_MAXTOK=n (all patterns of <=n tokens only).
 package main
 
 import (
@@ -692,7 +702,7 @@ func main() {
 	sort.SliceStable(pats, func(i, j int) bool { return len(pats[i].toks) < len(pats[j].toks) })
 	// internal wall-clock cap (never an oracle): the tail of the largest patterns is dropped and the run is reported as not exhaustive
 	if r.Deadline.IsZero() {
-		r.Deadline = r.Start.Add(map[bool]time.Duration{true: 100 * time.Second, false: 14 * time.Minute}[r.Quick()])
+		r.Deadline = r.Start.Add(map[bool]time.Duration{true: 240 * time.Second, false: 14 * time.Minute}[r.Quick()])
 	}
 	var cfgs []rcfg
 	for i := 0; i < 8; i++ {
